@@ -71,9 +71,10 @@ Section Writer.
   Definition scheme_missing (s : option scheme) : bool :=
     match s with None => true | Some s => negb (s_truthy s) end.
 
-  (* MafWriter.__iadd__: the log, the writer afterwards (also when the call
-     raises: the scheme may have been fixed and the column names written), and
-     the validated record or the exception *)
+  (* MafWriter.__iadd__ (repaired code): the log, the writer afterwards - a
+     record refused by validation leaves it exactly as it was; only rendering
+     the validated record can fail after the scheme was adopted -, and the
+     validated record or the exception *)
   Definition writer_iadd (w : writer) (r : mrec) : log * writer * res mrec :=
     (* [str(key) for key in record.keys()] *)
     let names := map (fun o => match o with Some c => ckey c | None => N_NONE end)
@@ -88,11 +89,14 @@ Section Writer.
         (s, [join [TAB] (s_names s)])
       else
         (match w_scheme w with Some s => s | None => no_restrictions [] end, []) in
-    let w1 := {| w_header := w_header w; w_scheme := Some sch; w_mode := w_mode w;
-                 w_out := w_out w ++ out1 |} in
+    (* validate against the (possibly local) scheme first: a record that is
+       refused leaves nothing behind - no scheme adopted, no column line *)
     match record_validate sem r (Some (w_mode w)) LgWriter true (Some sch) with
-    | (lg, Raise e) => (lg, w1, Raise e)
+    | (lg, Raise e) => (lg, w, Raise e)
     | (lg, Ok r') =>
+        (* `if not self._scheme:` adopt the scheme and write the column names *)
+        let w1 := {| w_header := w_header w; w_scheme := Some sch; w_mode := w_mode w;
+                     w_out := w_out w ++ out1 |} in
         match record_text r' with
         | Raise e => (lg, w1, Raise e)
         | Ok t =>
